@@ -217,6 +217,9 @@ def schedules(fam):
         out.append(S(fam, "stalecache2", [opn("c1"), tk('"t1"'), dict(sub("c1", "a"), **st), Q, call("b"), ev("b", "reaccess", **st),
                                           dict(reply("access", "b"), **st), dict(reply("call", "b"), **st), Q,
                                           call("b"), dict(reply("call", "b"), **st), dict(reply("access", "b", out="deny"), **st), Q]))
+        # a {cid} tag in the query part of a resource id: each connection gets its own resource
+        out.append(S(fam, "cidquery", [opn("c1"), opn("c2"), dict(sub("c1", "c?o={cid}"), **st), Q, dict(sub("c2", "c?o={cid}"), **st), Q,
+                                       {"op": "send", "c": "c1", "m": "call", "rid": "c?o={cid}", "action": "a", "settle": True}, Q]))
         # a token reset listing an empty token id must not reach connections without a token id (no token, or a token set
         # without one); a listed id reaches exactly its connection
         tkc = lambda c, t, tid: {"op": "token", "c": c, "tok": t, "tid": tid, "settle": True}
@@ -231,6 +234,16 @@ def schedules(fam):
         out.append(S(fam, "lostlate", [opn("c1"), opn("c2"), sub("c1", "a"), sub("c2", "b"), conn("c1"), conn("c2"), cache("a"), cache("b"),
                                        reply("get", "a"), reply("get", "b"), {"op": "mqlost"}, {"op": "open", "c": "c3"}, {"op": "start"},
                                        opn("c4"), sub("c4", "a"), Q]))
+    if fam == "life":
+        # Stop / connection loss while a connection's worker is blocked writing to a client that has stopped reading:
+        # the socket must be closed all the same, within the bounded time
+        stl = dict(settle=True)
+        for how in ("stop", "mqlost"):
+            out.append(S(fam, "stalled-" + how,
+                         [opn("c1"), opn("c2"), dict(sub("c1", "a"), **stl), Q, {"op": "stall", "c": "c1"},
+                          dict(sub("c1", "b"), **stl), dict(reply("access", "b"), **stl), dict(reply("get", "b"), **stl),
+                          dict(sub("c1", "c"), **stl), dict(reply("access", "c"), **stl), dict(reply("get", "c"), **stl),
+                          ev("a", "custom", **stl), dict(sub("c2", "a"), **stl), {"op": how}, {"op": "start"}, opn("c3"), sub("c3", "a"), Q]))
     if fam == "cache":
         out.append(S(fam, "resub", [opn("c1"), sub("c1", "a"), Q, unsub("c1", "a"), Q, {"op": "time", "ms": 3000},
                                     sub("c1", "a"), Q, unsub("c1", "a"), Q, {"op": "time", "ms": 6000}, Q, sub("c1", "a"), Q]))
